@@ -39,6 +39,8 @@ var nameDict = []string{
 	"s0", "s1", "s2", "s3", "s4", "s5", "a", "b", "ab", "ab01", "ab02", "x", "x_0001", "x_0002", "x_0001_0001",
 	"7", "0001", "A", "a b", " lead", "trail ", "n:1", "n_1", "q|r", "t(1)", "u.v;w", "S1", "S01", "S2", "Seq0001",
 	"Seq0002", "\xc3\xa9t\xc3\xa9", "-", "abcdefghij", "abcdefghijk", "same", "p_a", "N", "a_0", "a_1", "abcd", "abce", "abcd01",
+	// names that CleanNames merges (they differ by special characters or outer blanks only)
+	"a.b", "a:b", "a|b", "a,b", " a", "a ", "n.1", "a.b", "a:b",
 }
 
 const ntChars = "ACGTACGTACGTacgtNnRYKM--"
@@ -226,7 +228,7 @@ func genHistory(t *rapid.T) history {
 		chars = aaChars
 	}
 	h.Policy = rapid.IntRange(0, 3).Draw(t, "policy")
-	h.StartKind = rapid.SampledFrom([]string{"empty", "one-row", "one-column", "mixed-case", "hostile-names", "duplicate-names", "plain", "plain"}).Draw(t, "start")
+	h.StartKind = rapid.SampledFrom([]string{"empty", "one-row", "one-column", "mixed-case", "hostile-names", "duplicate-names", "clean-merge", "plain", "plain"}).Draw(t, "start")
 	maxRows := pbt.Scale(6, 8)
 	nrows := rapid.IntRange(2, maxRows).Draw(t, "rows")
 	l := rapid.IntRange(1, 12).Draw(t, "L")
@@ -250,6 +252,8 @@ func genHistory(t *rapid.T) history {
 			name = drawName(t, "name")
 		case "duplicate-names":
 			name = rapid.SampledFrom([]string{"a", "b", "a_0001", "x"}).Draw(t, "name")
+		case "clean-merge": // distinct names that CleanNames (or a regexp on the separator) sends to one name
+			name = rapid.SampledFrom([]string{"a.b", "a:b", "a|b", "a,b", "a b", " a", "a ", "a", "a-b", "a;b"}).Draw(t, "name")
 		}
 		li := l
 		if h.Kind == "seqbag" {
@@ -338,6 +342,7 @@ func checkHistory(h history) (o pbt.Outcome, err error) {
 		}
 	}
 	prev := "start"
+	lookups0 := collisionLookups
 	for k, op := range h.Ops {
 		before := m.names()
 		collBefore := m.collided()
@@ -378,6 +383,10 @@ func checkHistory(h history) (o pbt.Outcome, err error) {
 		prev = op.Op
 	}
 	o.NonTrivial = c.invalidations > 0
+	if collisionLookups > lookups0 {
+		// a name shared by several rows was looked up through every by-name path (all must reach the same row)
+		o.Class("collision-state-lookups-compared")
+	}
 	o.Class("kind=%s", h.Kind)
 	o.Class("alphabet=%s", h.Start.Alphabet)
 	o.Class("policy=%d", effectivePolicy(policyOf(h.Policy)))
@@ -513,13 +522,14 @@ func pairStarts() []history {
 		mk("seqbag", "nt", "plain", gen.Row{Name: "s0", Seq: "ACGTACG"}, gen.Row{Name: "s1", Seq: "ACGTA"}, gen.Row{Name: "s2", Seq: "ACGTACGTAC"}, gen.Row{Name: "s3", Seq: "ACGTA"}),
 		mk("alignment", "nt", "empty"),
 		mk("alignment", "nt", "duplicate-names", gen.Row{Name: "a", Seq: "ACGT"}, gen.Row{Name: "a", Seq: "ACGT"}, gen.Row{Name: "a", Seq: "TTTT"}, gen.Row{Name: "a_0001", Seq: "GG-A"}),
+		mk("alignment", "nt", "clean-merge", gen.Row{Name: "a.b", Seq: "ACGTA"}, gen.Row{Name: "x", Seq: "AC-TA"}, gen.Row{Name: "a:b", Seq: "TTGCA"}, gen.Row{Name: " x", Seq: "GGGCA"}),
 		mk("alignment", "aa", "mixed-case", gen.Row{Name: "S1", Seq: "MKXx-L"}, gen.Row{Name: "S2", Seq: "mkXX-L"}, gen.Row{Name: "n:1", Seq: "MK---L"}),
 	}
 }
 
 func TestOperationPairs(t *testing.T) {
 	ops := canonicalOps()
-	pbt.Enumerate(t, fmt.Sprintf("every ordered pair of %d canonical operation variants x 5 start states x 3 duplicate-name policies", len(ops)),
+	pbt.Enumerate(t, fmt.Sprintf("every ordered pair of %d canonical operation variants x 6 start states x 3 duplicate-name policies", len(ops)),
 		func(yield func(history) bool) {
 			for _, st := range pairStarts() {
 				for p := 0; p < 3; p++ {
